@@ -26,6 +26,7 @@ import (
 	"pgregory.net/rapid"
 
 	"verifharness/internal/ev"
+	"verifharness/internal/fakes"
 	"verifharness/internal/vt"
 )
 
@@ -110,6 +111,11 @@ func (w *world) lambdaAPI() http.Handler {
 func (w *world) upstream() http.Handler {
 	return http.HandlerFunc(func(rw http.ResponseWriter, r *http.Request) {
 		b, _ := io.ReadAll(r.Body)
+		if enc := r.Header.Get("Content-Encoding"); enc != "" {
+			if plain, err := fakes.Inflate(enc, b); err == nil {
+				b = plain
+			}
+		}
 		var msg pb.RawMessageV2
 		var ids []int
 		if proto.Unmarshal(b, &msg) == nil {
@@ -166,9 +172,17 @@ func freePort() int {
 	return l.Addr().(*net.TCPAddr).Port
 }
 
+// forwarderTuning holds http-transport settings that do not change what must be delivered, only how the forwarder
+// organises it (drawn per case): consolidator slots, concurrent merges, concurrent requests, compression.
+var forwarderTuning = map[string]interface{}{"consolidator-slots": 2}
+
 func newServer(upstreamURL string, ingestPort int, mode string) *statsd.Server {
 	v := viper.New()
-	v.Set("http-transport", map[string]interface{}{"api-endpoint": upstreamURL, "max-request-elapsed-time": "-1ns", "compress": false, "consolidator-slots": 2, "flush-interval": "1h"})
+	ht := map[string]interface{}{"api-endpoint": upstreamURL, "max-request-elapsed-time": "-1ns", "compress": false, "consolidator-slots": 2, "flush-interval": "1h"}
+	for k, val := range forwarderTuning {
+		ht[k] = val
+	}
+	v.Set("http-transport", ht)
 	v.Set("http-servers", []string{"ingest"})
 	v.Set("http.ingest", map[string]interface{}{"address": fmt.Sprintf("127.0.0.1:%d", ingestPort), "enable-ingestion": true, "enable-healthcheck": false})
 	logger := logrus.StandardLogger()
@@ -333,6 +347,12 @@ func TestExtensionOrdering(t *testing.T) {
 		up := httptest.NewServer(w.upstream())
 		defer up.Close()
 		ingestPort, telePort := freePort(), freePort()
+		forwarderTuning = map[string]interface{}{
+			"consolidator-slots": rapid.SampledFrom([]int{1, 2, 4}).Draw(t, "consolidator-slots"),
+			"concurrent-merge":   rapid.SampledFrom([]int{1, 1, 2, 3}).Draw(t, "concurrent-merge"),
+			"max-requests":       rapid.SampledFrom([]int{1, 2, 1000}).Draw(t, "max-requests"),
+			"compress":           rapid.Bool().Draw(t, "compress"),
+		}
 		srv := newServer(up.URL, ingestPort, "forwarder")
 		ext, err := lambda.NewExtension(logrus.StandardLogger(), srv, lambda.Options{RuntimeAPI: strings.TrimPrefix(api.URL, "http://"), ExecutableName: "gostatsd", EnableManualFlush: true, TelemetryAddr: fmt.Sprintf("127.0.0.1:%d", telePort)})
 		if err != nil {
